@@ -350,6 +350,15 @@ func (c *Ctx) ruleLifecycle(rule string, want map[string]bool) {
 					return false
 				}, nil)
 				okMap = !wrong
+				// and no way from the engine call to a return goes round the read of the map (an error
+				// path that hands back an empty map of its own withholds the entries of the rules that
+				// returned before the failure)
+				if _, round := pathExists(fn, ec, isReturn, func(in ssa.Instruction) bool {
+					call, ok := in.(*ssa.Call)
+					return ok && calleeIs(call, pEngine, "Gengine", "GetRulesResultMap")
+				}); round {
+					okMap = false
+				}
 			}
 			chk(fmt.Sprintf("engine-call%d-own-result", i+1), okMap, ec.Pos(), "the method must return the error of its engine call and the result map of the same engine, read after the call")
 			// the error part on its own (armed by the properties whose clauses speak of the call's error)
@@ -1021,7 +1030,37 @@ func (c *Ctx) ruleConstruction(rule string) {
 			}
 		})
 	}
-	c.Check(rule, "NewGenginePool#own-engine-per-instance", okEng && nEng >= 2, f.Pos(), "every wrapper must get its own engine (%d store(s) of the field found): %s", nEng, orStr(engWhy, "ok"))
+	// the two free lists and the slice of rule builders each own their memory: each is a slice made for it
+	// (make), not a part of an array another list lives in -- `fg := all[:min]; ag := all[min:]` lets the
+	// append that hands an instance back to one list, under that list's lock, write into the other
+	okOwn, ownWhy := true, ""
+	madeBy := map[ssa.Value]string{}
+	eachInstr(f, func(in ssa.Instruction) {
+		st, ok := in.(*ssa.Store)
+		if !ok {
+			return
+		}
+		fa, ok := st.Addr.(*ssa.FieldAddr)
+		if !ok || structName(fa.X.Type()) != "GenginePool" {
+			return
+		}
+		name := fieldOf(fa).Name()
+		if name != "freeGengines" && name != "additionGengines" && name != "rbSlice" {
+			return
+		}
+		o := x.Origin(st.Val)
+		mk, isMake := o.(*ssa.MakeSlice)
+		if !isMake {
+			okOwn, ownWhy = false, name+" is "+x.Describe(o)+", not a slice made for it"
+			return
+		}
+		if other, dup := madeBy[mk]; dup {
+			okOwn, ownWhy = false, name+" and "+other+" are the same slice"
+		}
+		madeBy[mk] = name
+	})
+	c.Check(rule, "NewGenginePool#lists-own-their-memory", okOwn && len(madeBy) == 3, f.Pos(), "freeGengines, additionGengines and rbSlice must each be a slice of its own (%d found): %s", len(madeBy), orStr(ownWhy, "ok"))
+	c.Check(rule, "NewGenginePool#own-engine-per-instance", okEng && nEng >= 1, f.Pos(), "every wrapper must get its own engine (%d store(s) of the field found): %s", nEng, orStr(engWhy, "ok"))
 	// one data context and rule builder per instance, created inside the loop, for every
 	// position 0..poolMaxLen-1
 	okPriv := false
